@@ -767,4 +767,203 @@ example : binomPyx TwinLoopsPyx.factorialTable 10 4 = 210 ∧ binomPy 10 4 = 210
 #guard TwinLoopsPyx.clockwiseNp [⟨0, 0⟩, ⟨1, 0⟩, ⟨1, 1⟩, ⟨0, 1⟩, ⟨0, 0⟩] = .ok false
 #guard TwinLoopsPyx.clockwise [⟨0, 0⟩, ⟨1, 0⟩] = .error .valueError
 
+/-! ### 5.5 earcut (growth round 2): the functions of mapbox_earcut.pyx / _mapbox_earcut.py that are NOT the same text.  After the cuts below
+    are replaced by their kernel names every function of the two modules except `earcut` itself is the same text (checked on every run). -/
+
+private theorem box_twin (a_x a_y b_x b_y c_x c_y : Rat) :
+    ((if c_x < (if b_x < a_x then b_x else a_x) then c_x else (if b_x < a_x then b_x else a_x),
+      if (if a_x < b_x then b_x else a_x) < c_x then c_x else (if a_x < b_x then b_x else a_x),
+      if c_y < (if b_y < a_y then b_y else a_y) then c_y else (if b_y < a_y then b_y else a_y),
+      if (if a_y < b_y then b_y else a_y) < c_y then c_y else (if a_y < b_y then b_y else a_y)) : Rat × Rat × Rat × Rat)
+    = (if (if c_x < b_x then c_x else b_x) < a_x then (if c_x < b_x then c_x else b_x) else a_x,
+       if a_x < (if b_x < c_x then c_x else b_x) then (if b_x < c_x then c_x else b_x) else a_x,
+       if (if c_y < b_y then c_y else b_y) < a_y then (if c_y < b_y then c_y else b_y) else a_y,
+       if a_y < (if b_y < c_y then c_y else b_y) then (if b_y < c_y then c_y else b_y) else a_y) := by
+  refine Prod.ext ?_ (Prod.ext ?_ (Prod.ext ?_ ?_)) <;> simp only [] <;> split_ifs <;> linarith
+
+/-- bounding box of the ear triangle: `min(ax, bx, cx)` … (CPython: left fold) vs `fmin(a.x, fmin(b.x, c.x))` … -/
+theorem twin_ecBox : TwinLoopsPy.ecBox = TwinLoopsPyx.ecBox := by
+  funext a_x a_y b_x b_y c_x c_y
+  simp only [TwinLoopsPy.ecBox, TwinLoopsPyx.ecBox]
+  first | rfl | exact box_twin a_x a_y b_x b_y c_x c_y
+theorem twin_ehBox : TwinLoopsPy.ehBox = TwinLoopsPyx.ehBox := by
+  funext a_x a_y b_x b_y c_x c_y
+  simp only [TwinLoopsPy.ehBox, TwinLoopsPyx.ehBox]
+  first | rfl | exact box_twin a_x a_y b_x b_y c_x c_y
+/-- "another vertex blocks the ear": box test, point_in_triangle (inlined), area sign; local copies ax… vs attributes a.x… -/
+theorem twin_ecBlocked : TwinLoopsPy.ecBlockedP1 = TwinLoopsPyx.ecBlockedP1 := rfl
+theorem twin_ehBlocked : TwinLoopsPy.ehBlockedP1 = TwinLoopsPyx.ehBlockedP1 ∧ TwinLoopsPy.ehBlockedN1 = TwinLoopsPyx.ehBlockedN1
+    ∧ TwinLoopsPy.ehBlockedP2 = TwinLoopsPyx.ehBlockedP2 ∧ TwinLoopsPy.ehBlockedN2 = TwinLoopsPyx.ehBlockedN2 := ⟨rfl, rfl, rfl, rfl⟩
+/-- sort key of the hole queue: `lambda node: (node.x, node.y)` vs `node_key` (seed C10-m4 changed the Python key to `node.x`) -/
+theorem twin_holeKey : TwinLoopsPy.holeKey = TwinLoopsPyx.holeKey := rfl
+theorem twin_saStep (s px py x y : Rat) : TwinLoopsPyx.saStep s px py x y = (TwinLoopsPy.saTerm s px py x y, x, y) := rfl
+/-- earcut `signed_area(points)`, any number of points -/
+theorem twin_signedArea : TwinLoopsPy.signedArea = TwinLoopsPyx.signedArea :=
+  signedArea_twin TwinLoopsPy.saTerm TwinLoopsPyx.saStep twin_saStep
+#guard TwinLoopsPyx.signedArea [⟨0, 0⟩, ⟨0, 1⟩, ⟨1, 1⟩, ⟨1, 0⟩] = 2
+#guard TwinLoopsPy.ecBox 3 1 (-2) 5 0 0 = (-2, 3, 0, 5)
+
+/-! ### 5.6 banded LU (growth round 2): `linalg._lu_decompose` / `_solve_vector_banded_matrix` vs `np_support._lu_decompose_cext` /
+    `_solve_vector_banded_matrix_cext`; the loop nests are modelled by `TwinLoops.luDecompose` / `svSolve` (pinned skeletons LU::*) -/
+theorem twin_luPivotTest : TwinLoopsPy.luPivotTest = TwinLoopsPyx.luPivotTest := by
+  first | rfl | (funext a b; simp only [TwinLoopsPy.luPivotTest, TwinLoopsPyx.luPivotTest])
+/-- `float(upper[i][0]) / float(upper[k][0])` (Python floats since fix D14) vs the C division: same ZeroDivisionError -/
+theorem twin_luFactor : TwinLoopsPy.luFactor = TwinLoopsPyx.luFactor := by
+  first | rfl | (funext a b; simp only [TwinLoopsPy.luFactor, TwinLoopsPyx.luFactor]; twin_close)
+theorem twin_luElim : TwinLoopsPy.luElim = TwinLoopsPyx.luElim := by
+  first | rfl | (funext a b c; simp only [TwinLoopsPy.luElim, TwinLoopsPyx.luElim]; ring)
+theorem twin_svFwd : TwinLoopsPy.svFwd = TwinLoopsPyx.svFwd := by
+  first | rfl | (funext a b c; simp only [TwinLoopsPy.svFwd, TwinLoopsPyx.svFwd]; ring)
+theorem twin_svBack : TwinLoopsPy.svBack = TwinLoopsPyx.svBack := by
+  first | rfl | (funext a b c; simp only [TwinLoopsPy.svBack, TwinLoopsPyx.svBack]; ring)
+theorem twin_svDiv : TwinLoopsPy.svDiv = TwinLoopsPyx.svDiv := by
+  first | rfl | (funext a b; simp only [TwinLoopsPy.svDiv, TwinLoopsPyx.svDiv]; twin_close)
+/-- banded LU decomposition with partial pivoting: same upper, lower, pivot index, same ZeroDivisionError; any size, any band widths -/
+theorem twin_luDecompose : TwinLoopsPy.luDecompose = TwinLoopsPyx.luDecompose := by
+  simp only [TwinLoopsPy.luDecompose, TwinLoopsPyx.luDecompose, TwinLoopsPy.luK, TwinLoopsPyx.luK, twin_luPivotTest, twin_luFactor, twin_luElim]
+/-- forward / back substitution -/
+theorem twin_svSolve : TwinLoopsPy.svSolve = TwinLoopsPyx.svSolve := by
+  simp only [TwinLoopsPy.svSolve, TwinLoopsPyx.svSolve, TwinLoopsPy.svK, TwinLoopsPyx.svK, twin_svFwd, twin_svBack, twin_svDiv]
+#guard (TwinLoopsPyx.luDecompose [[0, 8, 1], [2, 9, -1], [1, 10, 0]] 1 1).toOption.map (fun s => (s.upper, s.lower, s.index))
+    = some ([[8, 1, 0], [35 / 4, -1, 0], [354 / 35, 0, 0]], [[1 / 4], [4 / 35], [0]], [1, 2, 3])
+#guard (TwinLoopsPy.luDecompose [[0, 0, 1], [0, 0, 1], [0, 0, 1]] 1 1).toOption.isNone   -- zero pivot: ZeroDivisionError in both twins (D14)
+
+/-! ### 5.7 `Basis.basis_funcs_derivatives` (A2.3) complete, and `Evaluator.derivative` without the "given the same table" proviso -/
+theorem twin_bdA0 : TwinLoopsPy.bdA0 = TwinLoopsPyx.bdA0 := by
+  first | rfl | (funext a b; simp only [TwinLoopsPy.bdA0, TwinLoopsPyx.bdA0]; twin_close)
+theorem twin_bdD0 : TwinLoopsPy.bdD0 = TwinLoopsPyx.bdD0 := by
+  first | rfl | (funext a b; simp only [TwinLoopsPy.bdD0, TwinLoopsPyx.bdD0]; ring)
+theorem twin_bdAj : TwinLoopsPy.bdAj = TwinLoopsPyx.bdAj := by
+  first | rfl | (funext a b c; simp only [TwinLoopsPy.bdAj, TwinLoopsPyx.bdAj]; twin_close)
+theorem twin_bdDj : TwinLoopsPy.bdDj = TwinLoopsPyx.bdDj := by
+  first | rfl | (funext a b c; simp only [TwinLoopsPy.bdDj, TwinLoopsPyx.bdDj]; ring)
+theorem twin_bdAk : TwinLoopsPy.bdAk = TwinLoopsPyx.bdAk := by
+  first | rfl | (funext a b; simp only [TwinLoopsPy.bdAk, TwinLoopsPyx.bdAk]; twin_close)
+theorem twin_bdDk : TwinLoopsPy.bdDk = TwinLoopsPyx.bdDk := by
+  first | rfl | (funext a b c; simp only [TwinLoopsPy.bdDk, TwinLoopsPyx.bdDk]; ring)
+/-- `derivatives[k][j] *= r` with the Python float `r = float(p)` / the C double `rr = p`, and `r *= p - k` -/
+theorem twin_bdScale : TwinLoopsPy.bdScale = TwinLoopsPyx.bdScale ∧ TwinLoopsPy.bdNext = TwinLoopsPyx.bdNext := by
+  constructor
+  · first | rfl | (funext a b; simp only [TwinLoopsPy.bdScale, TwinLoopsPyx.bdScale]; ring)
+  · first | rfl | (funext a b c; simp only [TwinLoopsPy.bdNext, TwinLoopsPyx.bdNext]; ring)
+/-- A2.3: the table of the basis functions and their derivatives up to order n, for every knot vector, order, span, parameter, n -/
+theorem twin_basisFuncsDerivatives : TwinLoopsPy.basisFuncsDerivatives = TwinLoopsPyx.basisFuncsDerivatives := by
+  simp only [TwinLoopsPy.basisFuncsDerivatives, TwinLoopsPyx.basisFuncsDerivatives, TwinLoopsPy.dersK, TwinLoopsPyx.dersK,
+    twin_bdIndex, twin_bdLeft, twin_bdRight, twin_bdInner, twin_bdA0, twin_bdD0, twin_bdAj, twin_bdDj, twin_bdAk, twin_bdDk,
+    twin_bdScale.1, twin_bdScale.2]
+/-- `Evaluator.derivative(u, n)` with each twin's own A2.3: the only remaining parameter is the binomial coefficient function
+    (equal on the table range by `twin_binomial`) -/
+theorem twin_evalDerivative_full (binom : Nat → Nat → Rat) (knots : List Rat) (order : Nat) :
+    TwinLoopsPy.evalDerivative binom (TwinLoopsPy.basisFuncsDerivatives knots order)
+      = TwinLoopsPyx.evalDerivative binom (TwinLoopsPyx.basisFuncsDerivatives knots order) := by
+  rw [twin_basisFuncsDerivatives]; exact twin_evalDerivative binom _
+#guard TwinLoopsPy.basisFuncsDerivatives [0, 0, 0, 1, 2, 3, 3, 3] 3 2 (1 / 2) 1 = .ok [[1 / 4, 5 / 8, 1 / 8], [-1, 1 / 2, 1 / 2]]
+
+/-! ### 5.8 `cubic_bezier_arc_parameters` (bezier4p): ceil / tan / cos / sin and the double `pi` are shared parameters, the algebraic rest
+    of both twins is translated and proved equal -/
+theorem twin_apScalars : TwinLoopsPy.apSegmentsBad = TwinLoopsPyx.apSegmentsBad ∧ TwinLoopsPy.apDelta = TwinLoopsPyx.apDelta
+    ∧ TwinLoopsPy.apPositive = TwinLoopsPyx.apPositive ∧ TwinLoopsPy.apCeilArg = TwinLoopsPyx.apCeilArg
+    ∧ TwinLoopsPy.apSegAngle = TwinLoopsPyx.apSegAngle ∧ TwinLoopsPy.apTanArg = TwinLoopsPyx.apTanArg
+    ∧ TwinLoopsPy.apTanLen = TwinLoopsPyx.apTanLen ∧ TwinLoopsPy.apAngle = TwinLoopsPyx.apAngle
+    ∧ TwinLoopsPy.apFromAngle = TwinLoopsPyx.apFromAngle := ⟨rfl, rfl, rfl, rfl, rfl, rfl, rfl, rfl, rfl⟩
+/-- `max(ceil(…), segments)` vs `arc_count = <int> ceil(…); if segments > arc_count: arc_count = segments` -/
+theorem twin_apCount : TwinLoopsPy.apCount = TwinLoopsPyx.apCount := by
+  first | rfl | (funext a b; simp only [TwinLoopsPy.apCount, TwinLoopsPyx.apCount])
+/-- control points: `start_point + (-y·t, x·t)` keeps the z of the start point, the Cython twin builds a fresh `Vec3()` (z = 0):
+    equal for the points this function produces (`from_angle` has z = 0), NOT for arbitrary points -/
+theorem twin_apCp (c s tl : Rat) :
+    TwinLoopsPy.apCp1 (TwinLoopsPy.apFromAngle c s) tl = TwinLoopsPyx.apCp1 (TwinLoopsPy.apFromAngle c s) tl
+    ∧ TwinLoopsPy.apCp2 (TwinLoopsPy.apFromAngle c s) tl = TwinLoopsPyx.apCp2 (TwinLoopsPy.apFromAngle c s) tl := by
+  simp only [TwinLoopsPy.apCp1, TwinLoopsPyx.apCp1, TwinLoopsPy.apCp2, TwinLoopsPyx.apCp2, TwinLoopsPy.apFromAngle, V3.mk.injEq]
+  refine ⟨⟨?_, ?_, ?_⟩, ⟨?_, ?_, ?_⟩⟩ <;> first | rfl | ring | (simp only []; ring) | simp
+example : TwinLoopsPy.apCp1 ⟨1, 0, 5⟩ 1 ≠ TwinLoopsPyx.apCp1 ⟨1, 0, 5⟩ 1 := by decide +kernel
+
+private theorem arcLoop_twin (cos sin : Rat → Rat) (sa tl : Rat) : ∀ (n : Nat) (a : Rat),
+    arcLoop TwinLoopsPy.arcK (fun a => TwinLoopsPy.apFromAngle (cos a) (sin a)) sa tl n a
+      = arcLoop TwinLoopsPyx.arcK (fun a => TwinLoopsPyx.apFromAngle (cos a) (sin a)) sa tl n a := by
+  intro n
+  induction n with
+  | zero => intro a; rfl
+  | succ n ih =>
+    intro a
+    have hA : TwinLoopsPy.arcK.angle = TwinLoopsPyx.arcK.angle := rfl
+    have h1 : ∀ c s t, TwinLoopsPy.arcK.cp1 (TwinLoopsPy.apFromAngle c s) t = TwinLoopsPyx.arcK.cp1 (TwinLoopsPyx.apFromAngle c s) t :=
+      fun c s t => (twin_apCp c s t).1
+    have h2 : ∀ c s t, TwinLoopsPy.arcK.cp2 (TwinLoopsPy.apFromAngle c s) t = TwinLoopsPyx.arcK.cp2 (TwinLoopsPyx.apFromAngle c s) t :=
+      fun c s t => (twin_apCp c s t).2
+    have hF : TwinLoopsPy.apFromAngle = TwinLoopsPyx.apFromAngle := rfl
+    simp only [arcLoop, hA, h1, h2, ih]
+    simp only [hF]
+
+/-- `cubic_bezier_arc_parameters(start, end, segments)`: same exceptions, same number of segments, same control points, for every
+    choice of the library functions ceil, tan, cos, sin and of the constant pi -/
+theorem twin_arcParameters (ceil tan cos sin : Rat → Rat) :
+    TwinLoopsPy.arcParameters ceil tan cos sin = TwinLoopsPyx.arcParameters ceil tan cos sin := by
+  funext pi startA endA segments
+  simp only [TwinLoopsPy.arcParameters, TwinLoopsPyx.arcParameters, TwinLoops.arcParameters, arcLoop_twin]
+  rfl
+
+/-! ### 5.9 `is_point_in_polygon_2d` (construct): polygons of ANY size (the whole-function translation explodes: 13 MB of Lean for a triangle;
+    with the loop body cut out it is three kernels and a fold) -/
+theorem twin_pipClosed : TwinLoopsPy.pipClosed = TwinLoopsPyx.pipClosed := by
+  funext a b; simp only [TwinLoopsPy.pipClosed, TwinLoopsPyx.pipClosed, isclose_bool]
+/-- "the point lies on this edge" (bounding interval in x and y, |cross product| ≤ abs_tol) -/
+theorem twin_pipOnEdge : TwinLoopsPy.pipOnEdge = TwinLoopsPyx.pipOnEdge := by
+  first | rfl | (funext a b c d e f g; simp only [TwinLoopsPy.pipOnEdge, TwinLoopsPyx.pipOnEdge])
+/-- the ray crossing test incl. the (unreachable) ZeroDivisionError of `(y - y1) / (y2 - y1)` -/
+theorem twin_pipToggle : TwinLoopsPy.pipToggle = TwinLoopsPyx.pipToggle := by
+  first | rfl | (funext a b c d e f; simp only [TwinLoopsPy.pipToggle, TwinLoopsPyx.pipToggle])
+/-- `is_point_in_polygon_2d`: +1 / 0 / -1 equal for every point, polygon (any vertex count, closed or open) and tolerance; the Python twin
+    slices the closing vertex off, the Cython twin shortens its index range -/
+theorem twin_pointInPolygon : TwinLoopsPy.pointInPolygon = TwinLoopsPyx.pointInPolygon := by
+  simp only [TwinLoopsPy.pointInPolygon, TwinLoopsPyx.pointInPolygon, TwinLoopsPy.pipK, TwinLoopsPyx.pipK,
+    twin_pipClosed, twin_pipOnEdge, twin_pipToggle, pip_twin]
+#guard TwinLoopsPy.pointInPolygon ⟨1, 1⟩ [⟨0, 0⟩, ⟨2, 0⟩, ⟨2, 2⟩, ⟨0, 2⟩, ⟨0, 0⟩] (1 / 10000000000) = .ok 1
+#guard TwinLoopsPyx.pointInPolygon ⟨2, 1⟩ [⟨0, 0⟩, ⟨2, 0⟩, ⟨2, 2⟩, ⟨0, 2⟩] (1 / 10000000000) = .ok 0
+#guard TwinLoopsPyx.pointInPolygon ⟨3, 1⟩ [⟨0, 0⟩, ⟨2, 0⟩, ⟨2, 2⟩, ⟨0, 2⟩] (1 / 10000000000) = .ok (-1)
+
+/-! ### 5.10 `arc_angle_span_deg` / `arc_angle_span_rad` (construct): the whole functions; the two float modulo results (`start % 360.0`,
+    `end % 360.0`; Python `%` in both twins) are shared parameters -/
+private theorem c360 : ((217606647530633265 : Rat) / 604462909807314587353088)
+    = pyAbs (((4835703278458517 : Rat) / 4835703278458516698824704) * 360) := by
+  unfold pyAbs; norm_num
+/-- `math.isclose(a, b, abs_tol=DEG_ABS_TOL)` vs `isclose(a, b, REL_TOL, DEG_ABS_TOL)` three times, same branches, same results -/
+theorem twin_spanDeg : TwinLoopsPy.spanDeg = TwinLoopsPyx.spanDeg := by
+  funext st en s_mod e_mod
+  simp only [TwinLoopsPy.spanDeg, TwinLoopsPyx.spanDeg, c360, isclose_prop]
+theorem twin_spanRad : TwinLoopsPy.spanRad = TwinLoopsPyx.spanRad := by
+  funext st en s_mod e_mod tau
+  simp only [TwinLoopsPy.spanRad, TwinLoopsPyx.spanRad, isclose_prop]
+
+/-- **Evaluator.derivative(u, n)** with NO remaining parameter: the Python twin with `math.factorial` binomials, its own A2.3 and its own arithmetic,
+    the Cython twin with the FACTORIAL table, its own A2.3 and arithmetic - same derivatives, same exceptions, for every knot vector, weight list, order,
+    control polygon, parameter and derivative order n ≤ 18 (the table range; the Cython Basis limits the order to 11, n is clamped to the degree) -/
+theorem twin_evalDerivative_closed (knots weights : List Rat) (order : Nat) (cps : List V3) (u : Rat) (n : Nat) (hn : n ≤ 18) :
+    TwinLoopsPy.evalDerivative binomPy (TwinLoopsPy.basisFuncsDerivatives knots order) knots weights order cps u n
+      = TwinLoopsPyx.evalDerivative (binomPyx TwinLoopsPyx.factorialTable) (TwinLoopsPyx.basisFuncsDerivatives knots order) knots weights order cps u n := by
+  rw [twin_evalDerivative_full binomPy knots order]
+  simp only [TwinLoopsPyx.evalDerivative, TwinLoops.evalDerivative]
+  have hb : ∀ (ders : List (List Rat)) (w : List Rat) (c : List V3) (span : Int) (p : Nat),
+      derivRational TwinLoopsPyx.derivK binomPy ders w c span p n
+        = derivRational TwinLoopsPyx.derivK (binomPyx TwinLoopsPyx.factorialTable) ders w c span p n :=
+    fun ders w c span p => derivRational_binom _ _ _ ders w c span p n (fun k hk i => (twin_binomial k i (by omega)).symm)
+  simp only [hb]
+example : (18 : Nat) ≤ 18 := by decide
+
+/-! ### 5.11 `cubic_bezier_from_arc` -/
+theorem twin_faKernels : TwinLoopsPy.faTiny = TwinLoopsPyx.faTiny ∧ TwinLoopsPy.faMore = TwinLoopsPyx.faMore ∧ TwinLoopsPy.faBump = TwinLoopsPyx.faBump
+    ∧ TwinLoopsPy.faPoint = TwinLoopsPyx.faPoint := ⟨rfl, rfl, rfl, rfl⟩
+/-- `cubic_bezier_from_arc`: same curves, same exceptions, for every choice of the library functions, GIVEN that `math.radians(x)` is `x * (pi / 180)`
+    (CPython's definition; the Cython twin multiplies by `DEG2RAD = M_PI / 180.0` itself) -/
+theorem twin_fromArc (ceil tan cos sin radians : Rat → Rat) (fmod : Rat → Rat → Rat) (pi tau deg2rad : Rat)
+    (hrad : ∀ x, radians x = x * deg2rad) :
+    TwinLoopsPy.fromArc ceil tan cos sin radians fmod pi tau deg2rad = TwinLoopsPyx.fromArc ceil tan cos sin radians fmod pi tau deg2rad := by
+  have h1 : radians = fun s => TwinLoopsPyx.faStartRad s deg2rad := funext fun s => by simp only [TwinLoopsPyx.faStartRad, hrad]
+  have h2 : (fun s sp => radians (TwinLoopsPy.faEndArg s sp)) = fun s sp => TwinLoopsPyx.faEndRad s sp deg2rad := by
+    funext s sp; simp only [TwinLoopsPy.faEndArg, TwinLoopsPyx.faEndRad, hrad]
+  simp only [TwinLoopsPy.fromArc, TwinLoopsPyx.fromArc, h2, twin_spanDeg, twin_arcParameters, twin_faKernels.1, twin_faKernels.2.1,
+    twin_faKernels.2.2.1, twin_faKernels.2.2.2]
+  rw [h1]
+example : ∀ x : Rat, (fun x => x * (1 / 57)) x = x * (1 / 57) := fun _ => rfl
+
 end EzdxfVerif.Props.C10
